@@ -1,9 +1,9 @@
-import SamplyModel.Lemmas.Quota
+import SamplyModel.Lemmas.QuotaConfine
 /-!
 # C15 — cache eviction removes only the least-recently-used excess, inside its root
 
 Model: `SamplyModel/Model/Quota.lean` (follows `samply-quota-manager/src/file_inventory.rs` and
-`quota_manager.rs:197-256` after the repairs 9223a525 and f5f79157).
+`quota_manager.rs:197-256` after the repairs 9223a525, f5f79157 and 0ea8d7c2).
 
 `evictCore ord now c fs inv` is one `perform_eviction_if_needed` pass with settings `c` at clock value
 `now` on the file system `fs` and the inventory `inv`; `ord` is the table in the order SQLite returns
@@ -207,21 +207,46 @@ theorem C15_idempotent (ord inv : List Row) (now : Nat) (c : Cfg) (fs : FS) (G :
     rw [agePass_plain now c r1.fs r1.inv [] F1.good hage, haged]
     simp only [List.map_nil, deleteFiles]
 
-/-- **Confinement, unconditional.** In *every* state (no hypothesis on paths, links or sizes) every path
-handed to `remove_file` belongs to a row of the inventory and has the managed root as a component-wise
-prefix: `to_absolute_path` asserts it, anything else is a panic outcome. (The path may still contain
-`..` or pass through a symbolic link when the row was recorded for a path that did not resolve — see
-`C15_confined_excluded_point`.) -/
+/-- **Confinement, unconditional (physical).** In *every* state — no hypothesis on the recorded paths, on
+symbolic links, on sizes, on the settings, on the order — a pass only removes nodes, and every node of
+the file system either looks up exactly the same after the pass or is gone **and its physical path has
+the managed root as a prefix**. Nothing outside the managed directory is ever touched, whatever has
+been recorded and however the directory tree has been changed behind the manager's back (the `assert!`
+in `to_absolute_path` turns the remaining bad cases into a panic outcome, see
+`C15_confined_excluded_point`). This became provable with 0ea8d7c2; before it the lexical fallback path
+escaped (`C15_legacy_counterexample_dangling_link_outside_root`). -/
+theorem C15_confined (ord : List Row) (now : Nat) (c : Cfg) (fs : FS) (inv : List Row) :
+    (∀ k n, (evictCore ord now c fs inv).fs.lookup k = some n → fs.lookup k = some n) ∧
+    ∀ q, (evictCore ord now c fs inv).fs.lookup q = fs.lookup q ∨
+      ((evictCore ord now c fs inv).fs.lookup q = none ∧ ∃ rel, q = c.root ++ rel) :=
+  evictCore_confined_phys ord now c fs inv
+
+/-- **Confinement, unconditional (lexical).** In every state every path handed to `remove_file` belongs
+to a row of the inventory and has the managed root as a component-wise prefix. -/
 theorem C15_confined_lexical (ord inv : List Row) (hsub : ∀ r ∈ ord, r ∈ inv) (now : Nat) (c : Cfg)
     (fs : FS) :
     ∀ a ∈ (evictCore ord now c fs inv).attempts, a.row ∈ inv ∧ ∃ rel, a.path = c.root ++ rel :=
   evictCore_confined ord inv hsub now c fs
 
-/-- **Confinement on a good state.** Every deleted path is `root/rel` for a recorded `rel` that is free
-of `..` and passes through no symbolic link, and these paths are the *only* nodes of the file system
-that a pass changes: every other path (in particular everything outside the root) looks up the same
-before and after. -/
-theorem C15_confined (ord inv : List Row) (now : Nat) (c : Cfg) (fs : FS) (G : Good fs c.root inv)
+/-- Reports about a path that does not resolve and whose spelling below the root contains `..` are
+ignored (0ea8d7c2): no row with a `..` component is ever recorded. -/
+theorem C15_no_dotdot_recorded (fs : FS) (root p rel : Path) (h : relUnder fs root p = some rel) :
+    ".." ∉ rel := by
+  unfold relUnder at h
+  split at h
+  · cases h
+  · split at h
+    · next hall =>
+      cases h
+      rw [List.all_eq_true] at hall
+      intro hm
+      have := hall ".." hm
+      simp at this
+    · cases h
+
+/-- **Confinement on a good state.** Every deleted path is exactly `root/rel` for a recorded `rel` that is
+free of `..` and passes through no symbolic link, and these are the only nodes a pass changes. -/
+theorem C15_confined_plain (ord inv : List Row) (now : Nat) (c : Cfg) (fs : FS) (G : Good fs c.root inv)
     (hord : LruOrder ord inv) (hage : ∀ a, c.maxAge = some a → a ≤ now) :
     let res := evictCore ord now c fs inv
     (∀ a ∈ res.attempts, a.row ∈ inv ∧ a.path = c.root ++ a.row.rel ∧ ".." ∉ a.row.rel ∧
@@ -296,18 +321,27 @@ theorem C15_restart_same_root (now : Nat) (w : World) (m : Mgr) (hm : w.mgr = so
 finding it) is recorded under a *plain* relative path: `canonicalize` returns a physical path, so the
 stored `rel` has no `..` and passes through no symbolic link. This is how the `plain` part of `Good`
 is established; it can be lost only by later external changes of the directory tree or by reports
-about paths that do not resolve (both are generator families of the harness). -/
+about paths that do not resolve (both are generator families of the harness). Since 0ea8d7c2 a `..` component is never recorded at
+all (`C15_no_dotdot_recorded`). -/
 theorem C15_reported_existing_is_plain (fs : FS) (root p q rel : Path)
     (hc : canonicalize fs p = .ok q) (hrel : relUnder fs root p = some rel) :
     NoLinkBelow fs root rel ∧ ".." ∉ rel := by
   unfold relUnder canonOrKeep at hrel
   rw [hc] at hrel
   simp only at hrel
-  have hq := stripPrefix_some hrel
-  have hphys : PhysOk fs q := walkF_physOk fs canonFuel p q hc
-  rw [hq] at hphys
-  have := noLinkBelow_of_physOk fs root rel hphys
-  exact ⟨this, noLinkBelow_noDotDot fs root rel this⟩
+  cases hsp : stripPrefix root q with
+  | none => rw [hsp] at hrel; cases hrel
+  | some rel' =>
+    rw [hsp] at hrel
+    simp only at hrel
+    split at hrel
+    · cases hrel
+      have hq := stripPrefix_some hsp
+      have hphys : PhysOk fs q := walkF_physOk fs canonFuel p q hc
+      rw [hq] at hphys
+      have := noLinkBelow_of_physOk fs root rel hphys
+      exact ⟨this, noLinkBelow_noDotDot fs root rel this⟩
+    · cases hrel
 
 /-- Reports about paths outside the managed root are ignored (`strip_prefix` fails): the inventory is
 unchanged, whatever the arguments. -/
@@ -427,30 +461,46 @@ theorem C15_legacy_counterexample_total_eq_max_second_pass :
     (evict 1000 C15_cfg60 C15_fs3 C15_inv0).inv = C15_inv0 := by
   decide
 
-/-! ### The excluded point of confinement, run against the real code by the harness
-(`x-dotdot-dangling-symlink`, `x-dirlink-dangling`) -/
+/-! ### The defect repaired by 0ea8d7c2, and what remains at the excluded points
+(run against the real code by the harness: `x-dotdot-*`, `x-dirlink-*`, `x-symlink-planted-later`) -/
 
-/-- A row recorded for `root/../out/x` while that path did not resolve is stored as `../out/x`
-(`strip_prefix` is lexical). If a **dangling symbolic link** exists at `out/x` when the pass runs,
-`canonicalize` still fails, the fallback introduced by f5f79157 hands the lexical path
-`root/../out/x` to `remove_file`, the `assert!` passes (lexically under the root) and the link
-*outside the root* is unlinked. With a regular file at `out/x` the assert fires instead (panic, mutex
-poisoned). This is why `C15_confined` needs plain rows; the judge reports it on the real code. -/
-theorem C15_confined_excluded_point :
+/-- Before 0ea8d7c2: `root/../out/x` reported while absent was recorded as `../out/x` (`strip_prefix` is
+lexical); with a **dangling symbolic link** at `out/x` when the pass runs, `canonicalize` failed, the
+f5f79157 fallback handed the lexical path `root/../out/x` to `remove_file`, the `starts_with` assert
+passed lexically and the link *outside the managed root* was unlinked. The repaired code ignores the
+report (no row), and for an old row `../out/x` it resolves the parent (`/out`) and the assert fires. -/
+theorem C15_legacy_counterexample_dangling_link_outside_root :
     let fs0 : FS := [(["root"], .dir), (["out"], .dir), (["out", "s1"], .file)]
-    let inv := (onCreated fs0 ["root"] [] ["root", "..", "out", "x"] 1000 50).getD []
+    let fs1 : FS := (["out", "x"], .link ["void", "zzz"]) :: fs0
     let cfg : Cfg := ⟨["root"], some 0, none⟩
-    inv.map (·.rel) = [["..", "out", "x"]] ∧
-    -- (a) a dangling symlink appears outside the root: it is deleted
-    (let fs1 : FS := (["out", "x"], .link ["void", "zzz"]) :: fs0
-     (evict 1000 cfg fs1 inv).out = .ok ∧
-     (evict 1000 cfg fs1 inv).attempts.map (fun a => (a.path, a.res)) = [(["root", "..", "out", "x"], .ok)] ∧
-     (evict 1000 cfg fs1 inv).fs.lookup ["out", "x"] = none) ∧
-    -- (b) a regular file appears there: the assert fires
-    (let fs2 : FS := (["out", "x"], .file) :: fs0
+    let invL := (onCreatedLegacyPath fs0 ["root"] [] ["root", "..", "out", "x"] 1000 50).getD []
+    invL.map (·.rel) = [["..", "out", "x"]] ∧
+    (sizePassLegacyPath (sortLRU invL) cfg fs1 invL).out = .ok ∧
+    (sizePassLegacyPath (sortLRU invL) cfg fs1 invL).attempts.map (fun a => (a.path, a.res))
+      = [(["root", "..", "out", "x"], .ok)] ∧
+    (sizePassLegacyPath (sortLRU invL) cfg fs1 invL).fs.lookup ["out", "x"] = none ∧
+    -- repaired: the report is ignored …
+    onCreated fs0 ["root"] [] ["root", "..", "out", "x"] 1000 50 = some [] ∧
+    -- … and a row `../out/x` left in an old database makes the pass panic instead of escaping
+    (evict 1000 cfg fs1 invL).out = .panicPoison ∧ (evict 1000 cfg fs1 invL).fs = fs1 := by
+  decide
+
+/-- What remains outside `Good` on the repaired tree: a row recorded below a **directory symlink that
+leaves the root** (`root/dl → /out`, `dl/z` reported while absent) — or a recorded file later replaced
+by a symlink out of the root — resolves outside the root when the pass runs; `to_absolute_path` asserts,
+the pass panics with the inventory mutex held (poisoned), and nothing is deleted (in accordance with
+`C15_confined`): (a) dangling link at `out/z`, (b) regular file at `out/z`, (c) nothing at `out/z`. -/
+theorem C15_confined_excluded_point :
+    let fs0 : FS := [(["root"], .dir), (["out"], .dir), (["out", "s1"], .file),
+      (["root", "dl"], .link ["out"])]
+    let inv := (onCreated fs0 ["root"] [] ["root", "dl", "z"] 10 50).getD []
+    let cfg : Cfg := ⟨["root"], some 0, none⟩
+    inv.map (·.rel) = [["dl", "z"]] ∧
+    (let fs1 : FS := (["out", "z"], .link ["void", "zzz"]) :: fs0
+     (evict 1000 cfg fs1 inv).out = .panicPoison ∧ (evict 1000 cfg fs1 inv).fs = fs1) ∧
+    (let fs2 : FS := (["out", "z"], .file) :: fs0
      (evict 1000 cfg fs2 inv).out = .panicPoison ∧ (evict 1000 cfg fs2 inv).fs = fs2) ∧
-    -- (c) nothing appears: the row is forgotten
-    ((evict 1000 cfg fs0 inv).out = .ok ∧ (evict 1000 cfg fs0 inv).inv = []) := by
+    ((evict 1000 cfg fs0 inv).out = .panicPoison ∧ (evict 1000 cfg fs0 inv).inv = inv) := by
   decide
 
 /-! ### Non-vacuity: the hypotheses are satisfiable by a non-trivial state, and the conclusions are the
